@@ -501,7 +501,22 @@ func Explore(pool *Pool, spec Spec, deadline time.Time, maxViol int) (Stats, []F
 
 // stepAndCheck applies op to w (built from the prefix), computes the successor key and runs the
 // oracles; with noTrace a rejected request must leave the canonical state text unchanged.
-func stepAndCheck(sp Space, w *World, op Op, noTrace bool, parentTxt string) (string, error) {
+func stepAndCheck(sp Space, w *World, op Op, noTrace bool, parentTxt string) (key string, err error) {
+	defer func() {
+		// an oracle drives the library too (iterators, health check, reopen, commits): a panic raised inside library
+		// code is a verdict on the library, any other panic is the harness's own and stays fatal
+		if r := recover(); r != nil {
+			at := libraryPanicSite(debug.Stack())
+			if at == "" {
+				panic(r)
+			}
+			err = violf("the library panicked while the state after %s was judged: %v (at %s)", op, r, at)
+		}
+	}()
+	return stepAndCheck1(sp, w, op, noTrace, parentTxt)
+}
+
+func stepAndCheck1(sp Space, w *World, op Op, noTrace bool, parentTxt string) (string, error) {
 	err := w.Apply(op)
 	if err != nil {
 		return "", err
